@@ -198,3 +198,18 @@ Lemma erase_ev_no_quant (T : Type) input cfg weight op1 op2 op3 v e :
   ev T input cfg weight (fun _ x => x) op1 op2 op3 v (erase e) = ev T input cfg weight (fun _ x => x) op1 op2 op3 v e.
 Proof. induction e; cbn; try reflexivity; try (f_equal; assumption); try assumption.
   destruct (v flag); assumption. Qed.
+
+(* ---- geometry of the backend convolutions (C11) ---- *)
+(* golden table: every backend convolution receives the layer's own geometry (qconvolutional.py) *)
+Definition expected_geometry : list (string * string * list (string * string)) :=
+  [("QConv1D", "conv", [("data_format", "self.data_format"); ("dilation_rate", "self.dilation_rate[0]"); ("padding", "self.padding"); ("strides", "self.strides[0]")]);
+   ("QConv2D", "conv", [("data_format", "self.data_format"); ("dilation_rate", "self.dilation_rate"); ("padding", "self.padding"); ("strides", "self.strides")]);
+   ("QConv2DTranspose", "conv_transpose", [("data_format", "self.data_format"); ("dilation_rate", "self.dilation_rate"); ("padding", "self.padding"); ("strides", "self.strides")]);
+   ("QDepthwiseConv2D", "depthwise_conv", [("data_format", "self.data_format"); ("dilation_rate", "self.dilation_rate"); ("padding", "self.padding"); ("strides", "self.strides")]);
+   ("QSeparableConv1D", "separable_conv", [("data_format", "self.data_format"); ("dilation_rate", "dilation_rate"); ("padding", "op_padding"); ("strides", "self.strides*2")]);
+   ("QSeparableConv2D", "separable_conv", [("data_format", "self.data_format"); ("dilation_rate", "self.dilation_rate"); ("padding", "self.padding"); ("strides", "self.strides")])].
+Definition has_key (k : string) (kv : list (string * string)) : bool := existsb (fun p => String.eqb (fst p) k) kv.
+Definition geometry_complete (g : list (string * string * list (string * string))) : bool :=
+  forallb (fun e => has_key "strides" (snd e) && has_key "padding" (snd e) && has_key "dilation_rate" (snd e) && has_key "data_format" (snd e)) g.
+Lemma expected_geometry_complete : geometry_complete expected_geometry = true.
+Proof. reflexivity. Qed.
